@@ -387,14 +387,21 @@ def coq_call(kind, trace=None, failing_k=None):
 # ----------------------------------------------------------------------------- histories
 class HistoryGen:
     """A history: list of call descriptions (see c17_worker) + per call the abstract model call."""
-    def __init__(self, rng, ncalls):
+    # families aimed at one class of leak each; c17.py makes every history contain some of them (round robin), so that a
+    # quick run does not depend on luck to contain each family several times
+    TARGETED = ["c_defaults", "c_dangling_reference", "c_lazy_readers", "c_union_hints", "c_legacy_defaults", "c_redefined_names",
+                "c_writer_object", "c_piecewise_use", "c_read_union_of_records", "c_read_decimal_focus"]
+
+    def __init__(self, rng, ncalls, must=()):
         self.rng = rng
         self.n = ncalls
+        self.must = list(must)
         self.calls = []
         self.abstract = []          # Gallina api_call per entry of self.calls ("" for new_dict)
         self.meta = []              # free-form: expected outcome etc.
         self.parsed = []            # (slot, raw schema, defined, shared: parsed against a caller-supplied dict)
         self.raws = []              # raw schema OBJECTS handed to several calls of the history
+        self.piecewise = []         # (slot, raw parent, defined): parents whose child type was parsed separately into a shared dict
         self.families = []          # named types Color/Fx/Sub/Rec recurring across calls with DIFFERENT definitions
         self.hinted = []            # (schema argument, raw, [datum objects]) for '-type' hints, data objects reused across calls
         self.legacy = []            # (file bytes, valid reader schema): hand-built files with a mismatching default in the header
@@ -449,22 +456,8 @@ class HistoryGen:
             names.update(defined)
             self.emit({"api": "parse_schema", "schema": {"$slot": slot}, "named_schemas": {"$slot": ns}}, "CParse", expect="ok")
             return
-        if r < 0.30:                                       # piecewise: child first, then a parent referring to it by name
-            ns, names = self.dict_slot()
-            child_def = {}
-            child = SchemaGen(rng).record("Inner", 1, child_def)
-            out = self.fresh_slot("P")
-            self.emit({"api": "parse_schema", "schema": child, "named_schemas": {"$slot": ns}, "$out": out}, "CParse", expect="ok")
-            self.parsed.append((out, child, child_def, True))
-            names.update(child_def)
-            pdef = dict(names)
-            parent = {"type": "record", "name": rng.choice(["R", "Outer"]), "fields": [
-                {"name": "x", "type": "Inner"}, {"name": "y", "type": rng.choice(["int", {"type": "array", "items": "Inner"}])}]}
-            pdef[parent["name"]] = parent
-            out2 = self.fresh_slot("P")
-            self.emit({"api": "parse_schema", "schema": parent, "named_schemas": {"$slot": ns}, "$out": out2}, "CParse", expect="ok")
-            self.parsed.append((out2, parent, pdef, True))
-            names[parent["name"]] = parent
+        if r < 0.30:
+            self.piecewise_parent()
             return
         if r < 0.40:                                       # designed to raise: unknown type / redefinition / bad decimal
             raw, defined = self.new_schema()
@@ -502,6 +495,27 @@ class HistoryGen:
             return
         self.emit(call, "CParse", expect="ok")
         self.parsed.append((out, raw, defined, shared))
+
+    def piecewise_parent(self):
+        """piecewise: child first, then a parent referring to it by name, both parsed against one caller dict"""
+        rng = self.rng
+        ns, names = self.dict_slot()
+        child_def = {}
+        child = SchemaGen(rng).record("Inner", 1, child_def)
+        out = self.fresh_slot("P")
+        self.emit({"api": "parse_schema", "schema": child, "named_schemas": {"$slot": ns}, "$out": out}, "CParse", expect="ok")
+        self.parsed.append((out, child, child_def, True))
+        names.update(child_def)
+        pdef = dict(names)
+        parent = {"type": "record", "name": rng.choice(["R", "Outer"]), "fields": [
+            {"name": "x", "type": "Inner"}, {"name": "y", "type": rng.choice(["int", {"type": "array", "items": "Inner"}])}]}
+        pdef[parent["name"]] = parent
+        out2 = self.fresh_slot("P")
+        self.emit({"api": "parse_schema", "schema": parent, "named_schemas": {"$slot": ns}, "$out": out2}, "CParse", expect="ok")
+        self.parsed.append((out2, parent, pdef, True))
+        names[parent["name"]] = parent
+        self.piecewise.append((out2, parent, pdef))
+        return
 
     def c_schemaless_writer(self):
         rng = self.rng
@@ -673,6 +687,65 @@ class HistoryGen:
                 recs = [dg.gen(wraw) for _ in range(rng.randrange(1, 4))]
                 self.emit({"api": "reader", "data": container(wraw, recs, defined, "null"), "reader_schema": arg}, "(CRead [])", expect="ok")
 
+    # --- piecewise-parsed schemas in use -----------------------------------------------------------------------
+    def c_piecewise_use(self):
+        """a parent schema that refers to a type BY NAME because the type was parsed separately into a shared
+        named_schemas dict: canonical form, writers (self-contained header?), validate - after other calls of the
+        history handled schemas that define the same names"""
+        rng = self.rng
+        if not self.piecewise or rng.random() < 0.2:
+            self.piecewise_parent()
+        slot, raw, defined = rng.choice(self.piecewise)
+        arg = {"$slot": slot}
+        for _ in range(rng.choice([1, 2])):
+            k = rng.choice(["canonical", "canonical", "writer", "json_writer", "schemaless_writer", "validate"])
+            if k == "canonical":
+                self.emit({"api": "canonical", "schema": arg}, "CCanonical", expect="any")
+            elif k == "validate":
+                self.emit({"api": "validate", "schema": arg, "datum": DataGen(rng, "write", defined).gen(raw), "kw": {"raise_errors": False}},
+                          "CValidate", expect="any")
+            elif k == "schemaless_writer":
+                self.emit({"api": k, "schema": arg, "record": DataGen(rng, "write", defined).gen(raw), "kw": {}}, "CWrite", expect="any")
+            else:
+                recs = [DataGen(rng, "write", defined).gen(raw) for _ in range(rng.randrange(0, 3))]
+                self.emit({"api": k, "schema": arg, "records": recs, "kw": {}}, "CWrite" if k == "writer" else "CJsonWrite", expect="any")
+
+    # --- the Writer object ----------------------------------------------------------------------------------------
+    def c_writer_object(self):
+        """Writer(...).write(...) ... flush(): records handed in one by one, some of them failing MIDWAY (a bad value in the
+        last field, after bytes of the record were encoded); a failed call must leave no trace in what the later calls produce"""
+        rng = self.rng
+        raw = {"type": "record", "name": rng.choice(["R", "W"]), "fields": [
+            {"name": "id", "type": "long"}, {"name": "name", "type": "string"},
+            {"name": "tags", "type": {"type": "array", "items": "string"}},
+            {"name": "color", "type": {"type": "enum", "name": "E", "symbols": ["A", "B"]}}]}
+        defined = {"E": raw["fields"][3]["type"], raw["name"]: raw}
+        arg = raw
+        if rng.random() < 0.4:
+            out = self.fresh_slot("P")
+            self.emit({"api": "parse_schema", "schema": raw, "$out": out}, "CParse", expect="ok")
+            self.parsed.append((out, raw, defined, False))
+            arg = {"$slot": out}
+        w = self.fresh_slot("WR")
+        kw = rng.choice([{}, {}, {"sync_interval": 40}, {"codec": "deflate"}, {"validator": True}])
+        self.emit({"api": "writer_new", "schema": arg, "kw": kw, "$out": w}, "CWrite", expect="ok")
+        nw = rng.randrange(2, 6)
+        force_bad = rng.randrange(nw - 1) if rng.random() < 0.8 else -1      # a midway failure followed by further writes
+        for wi in range(nw):
+            rec = DataGen(rng, "write", defined).gen(raw)
+            if rng.random() < 0.25 or wi == force_bad:
+                bad = rng.choice(["enum", "array", "first"]) if wi != force_bad else rng.choice(["enum", "array"])
+                if bad == "enum":
+                    rec["color"] = "NOPE"
+                elif bad == "array":
+                    rec["tags"] = ["ok", 5]
+                else:
+                    rec["id"] = "not a long"
+                self.emit({"api": "writer_write", "writer": {"$slot": w}, "record": rec}, "(CFailing CWrite 0%nat)", expect="raise")
+            else:
+                self.emit({"api": "writer_write", "writer": {"$slot": w}, "record": rec}, "CWrite", expect="ok")
+        self.emit({"api": "writer_flush", "writer": {"$slot": w}}, "CWrite", expect="ok")
+
     # --- the same full names, different definitions ---------------------------------------------------------
     def redefined_variant(self, fam):
         """one more definition of the family's names: enum symbols permuted / extended, fixed size changed,
@@ -817,8 +890,8 @@ class HistoryGen:
             recs = [dg.gen(good) for _ in range(rng.randrange(1, 4))]
             data = container(w, recs, defined, rng.choice(["null", "deflate"]))
             self.legacy.append((data, good))
-        for _ in range(rng.choice([1, 2])):
-            k = rng.choice(["with", "with", "without", "without", "block"])
+        for k in rng.choice([["with", "without"], ["without", "with"], ["with", "block"], ["with", "without", "block"], ["without"],
+                             ["block", "with", "without"]]):
             if k == "with":
                 self.emit({"api": "reader", "data": data, "reader_schema": good}, "(CRead [])", expect="ok")
             elif k == "without":
@@ -1099,7 +1172,7 @@ class HistoryGen:
 
     KINDS = [("c_parse", 5), ("c_schemaless_writer", 3), ("c_schemaless_reader", 3), ("c_read_truncated", 1), ("c_read_union_of_records", 2),
              ("c_defaults", 5), ("c_dangling_reference", 2), ("c_lazy_readers", 1),
-             ("c_union_hints", 2), ("c_legacy_defaults", 2), ("c_redefined_names", 4),
+             ("c_union_hints", 2), ("c_legacy_defaults", 2), ("c_redefined_names", 4), ("c_writer_object", 1), ("c_piecewise_use", 2),
              ("c_read_decimal_focus", 3), ("c_writer", 3), ("c_reader", 2), ("c_reader_truncated", 1), ("c_validate", 3),
              ("c_canonical", 1), ("c_fingerprint", 1), ("c_json_writer", 2), ("c_json_reader", 1), ("c_generate", 1), ("c_load", 2)]
 
@@ -1107,6 +1180,14 @@ class HistoryGen:
         rng = self.rng
         names = [k for k, w in self.KINDS for _ in range(w)]
         self.c_parse()
-        while sum(1 for c in self.calls if c["api"] != "new_dict") < self.n:
-            getattr(self, rng.choice(names))()
+        plan = [rng.choice(names) for _ in range(self.n)]
+        for m in self.must:
+            plan.insert(rng.randrange(len(plan) // 2 + 1), m)       # early enough to be followed by other calls
+        done_must = 0
+        for kname in plan:
+            if sum(1 for c in self.calls if c["api"] != "new_dict") >= self.n and done_must >= len(self.must):
+                break
+            if kname in self.must and done_must < len(self.must):
+                done_must += 1
+            getattr(self, kname)()
         return self
